@@ -140,6 +140,16 @@ func VerifC10TwoKeyFrames() {
 	verifCover("C10.two-keyframes.end")
 }
 
+// a key frame whose slice does not fit the MTU: the parameter sets still go
+// out (as one STAP-A) in front of the FU-A run
+func VerifC10KeyFrameFragmented() {
+	verifC10Fixed = [][2]int{{4, 2}, {0, 12}}
+	verifC10MTUs = []int{9, 11}
+	VerifC10RoundTrip()
+	verifC10Fixed, verifC10MTUs = nil, nil
+	verifCover("C10.keyframe-fragmented.end")
+}
+
 // parameter sets followed by an AUD or filler and then a unit
 func VerifC10DroppedAfterKeyFrame() {
 	verifC10Fixed = [][2]int{{4, 2}, {3, 2}, {0, 2}}
